@@ -244,13 +244,24 @@ pub fn explore<S: Scenario>(scn: &S, cfg: &ExploreCfg) -> Report {
     let stop = AtomicBool::new(false);
     let total_states = AtomicU64::new(0);
 
+    let mut setup_failures: Vec<String> = vec![];
     for &root in &root_ids {
         if stop.load(Ordering::SeqCst) {
             break;
         }
         // ---- root state (main thread)
+        // a root whose set-up transactions no longer go through is skipped and reported as a machinery error
+        // (unless another root yields a violation, which takes precedence): it is a harness expectation, not an oracle
         let mut w0 = World::new();
-        let (handles, ghost0) = scn.setup(root, &mut w0);
+        let set_up = std::panic::catch_unwind(std::panic::AssertUnwindSafe(|| scn.setup(root, &mut w0)));
+        let (handles, ghost0) = match set_up {
+            Ok(x) => x,
+            Err(p) => {
+                let msg = p.downcast_ref::<String>().cloned().or_else(|| p.downcast_ref::<&str>().map(|s| s.to_string())).unwrap_or_default();
+                setup_failures.push(format!("root '{}' of {}: {}", labels[root], scn.name(), msg.chars().take(300).collect::<String>()));
+                continue;
+            }
+        };
         let snap0 = w0.snapshot();
         let root_fp = fingerprint(&(&snap0, &ghost0));
         {
@@ -431,6 +442,9 @@ pub fn explore<S: Scenario>(scn: &S, cfg: &ExploreCfg) -> Report {
         }
         let _ = interner.len();
     }
+    if !setup_failures.is_empty() && rep.machinery_error.is_none() {
+        rep.machinery_error = Some(format!("set-up of {} root(s) failed: {}", setup_failures.len(), setup_failures.join(" | ")));
+    }
     let known_keys: Vec<String> = rep.counters.keys().filter(|k| k.starts_with("known:")).cloned().collect();
     for key in known_keys {
         let n = rep.counters.remove(&key).unwrap_or(0);
@@ -494,7 +508,12 @@ fn handle_violation<S: Scenario>(
 /// Replay a recorded trace on a fresh world, no explorer, no snapshots. Prints each step.
 /// Returns true iff the recorded oracle fails again.
 pub fn replay_trace<S: Scenario>(scn: &S, doc: &Value) -> bool {
-    let root = doc["root"].as_u64().unwrap() as usize;
+    // roots are identified by label (a check may explore several root lists); the index is the fallback
+    let labels = scn.root_labels();
+    let root = match doc["root_label"].as_str().and_then(|l| labels.iter().position(|x| x == l)) {
+        Some(i) => i,
+        None => doc["root"].as_u64().unwrap() as usize,
+    };
     let want = doc["oracle"].as_str().unwrap_or("").to_string();
     let mut w = World::new();
     let (h, mut g) = scn.setup(root, &mut w);
